@@ -31,7 +31,7 @@ ASSUMPTIONS = [
     'required is that later operations behave as on a fresh object',
     'private dispatcher state is recorded in witnesses as a diagnosis only',
 ]
-REQUIRED = {'cascading_watcher_programs': 50, 'faulted_runs': 2000, 'faults_fired': 1500, 'probe_deliveries': 5000, 'in_batch_runs': 500,
+REQUIRED = {'multi_round_fault_runs': 10, 'cascading_watcher_programs': 50, 'faulted_runs': 2000, 'faults_fired': 1500, 'probe_deliveries': 5000, 'in_batch_runs': 500,
             'fault_watcher': 300, 'fault_updatekey': 300, 'fault_body': 300, 'failed_constructors': 10, 'class_level_cases': 5}
 
 _st = {}
@@ -458,8 +458,88 @@ def class_level_case(idx, rng, P, rep):
     rep.case(('class-level', fault, tuple(rng_flags)), nontrivial=True)
 
 
+def rounds_case(idx, rng, P, rep):
+    """Several faults in successive rounds of ONE flush: in every round a deferred (queued) watcher assigns the next parameter
+    and, in some rounds, another watcher of the same parameter raises. Whatever the route (assignment, update, batch, trigger),
+    every assignment made has been announced when the call returns or raises, and the object then behaves like a fresh one."""
+    param = _st['param']
+    n = rng.randint(2, 4)
+    names = [f'p{i}' for i in range(n + 1)] + ['z']
+    cls = type(f'RC{idx}', (param.Parameterized,), {k: param.Parameter(default=('v', k, 0)) for k in names})
+    raisers = [i for i in range(n) if rng.random() < 0.6]
+    route = rng.choice(['set', 'update', 'batch', 'trigger'])
+
+    def build(faulty):
+        o = cls()
+        log = []
+        for i in range(n):
+            def assign(event, i=i):
+                setattr(o, names[i + 1], ('v', names[i + 1], event.new[2] + 1))
+            o.param.watch(assign, names[i], queued=True, onlychanged=False, precedence=1)
+            if i in raisers:
+                def boom(event, i=i):
+                    log.append(('raiser', names[i]))
+                    if faulty:
+                        raise Boom(f'watcher of {names[i]}')
+                o.param.watch(boom, names[i], onlychanged=False, precedence=2)
+        for k in names:
+            # (told first: a watcher that comes after a failing one in the same round is legitimately not called)
+            o.param.watch(lambda e, k=k: log.append(('told', k, e.new)), k, onlychanged=False, precedence=0)
+        return o, log
+
+    def act(o):
+        v = ('v', 'p0', 10)
+        if route == 'set':
+            o.p0 = v
+        elif route == 'update':
+            o.param.update(p0=v)
+        elif route == 'batch':
+            with param.parameterized.batch_call_watchers(o):
+                o.p0 = v
+        else:
+            with param.parameterized.discard_events(o):
+                o.p0 = v
+            o.param.trigger('p0')
+    ref, ref_log = build(False)
+    act(ref)
+    obj, log = build(True)
+    raised = False
+    try:
+        act(obj)
+    except Boom:
+        raised = True
+    desc = dict(kind='rounds', rounds=n, raising_rounds=raisers, route=route)
+    rep.count('faulted_runs')
+    rep.count('multi_round_fault_runs')
+    if raisers:
+        rep.count('faults_fired', len(raisers))
+        if not raised:
+            rep.violation('C05/rounds/error-swallowed', 'no watcher error reached the caller', case=desc)
+    want = {k: getattr(ref, k) for k in names}
+    got = {k: getattr(obj, k) for k in names}
+    told = [x for x in log if x[0] == 'told']
+    told_ref = [x for x in ref_log if x[0] == 'told']
+    if got != want:
+        rep.violation('C05/rounds/values-differ-from-fault-free-run', f'{got} / {want}', case=desc)
+    elif sorted(map(repr, told)) != sorted(map(repr, told_ref)):
+        missing = [x for x in told_ref if x not in told]
+        rep.violation('C05/late-announcement/rounds', f'when the {route} returned, the assignments {missing} made by deferred watchers had '
+                      f'not been announced (announced: {told})', case=desc, trace=[repr(x) for x in log[-12:]])
+    # afterwards: like a fresh object
+    del log[:], ref_log[:]
+    for o in (obj, ref):
+        o.z = ('v', 'z', 99)
+    rep.count('probe_deliveries', len(log))
+    if log != ref_log:
+        rep.violation('C05/probe-differs-from-twin/rounds', f'after the faults a plain assignment delivered {log}, on the fault-free object {ref_log}',
+                      case=desc)
+    rep.case(('rounds', n, tuple(raisers), route), bool(raisers))
+
+
 def run_case(idx, rng, P, rep):
     param = _st['param']
+    if rng.random() < 0.06:
+        return rounds_case(idx, rng, P, rep)
     if rng.random() < 0.25:
         return class_level_case(idx, rng, P, rep)
     cls = make_class(param, idx)
